@@ -203,7 +203,8 @@ func (g *gen) invalidKeyStores() []rawInput {
 	add("cert-only", "two-certificates", cat(certPEM(selfSigned(ec, "co1")), certPEM(selfSigned(rs, "co2"))))
 	add("key-only", "key-without-certificate", keyPEM(ec, "ko0"))
 	add("key-only", "two-keys-without-certificate", cat(keyPEM(ec, "ko1"), keyPEM(rs, "ko2")))
-	for _, k := range []string{"rsa1024", "rsa512", "ec_secp224r1", "ec_secp256k1", "ed25519", "x25519", "dsa"} {
+	// rsa2560/3584/2049/4095: sizes between (or next to) the supported ones - a range check instead of an exact one lets them through
+	for _, k := range []string{"rsa1024", "rsa512", "rsa2560", "rsa3584", "rsa2049", "rsa4095", "ec_secp224r1", "ec_secp256k1", "ed25519", "x25519", "dsa"} {
 		add("unsupported", k, keyPEM(k, "u-"+k))
 	}
 	for _, k := range []string{"rsa1024", "ec_secp224r1"} {
